@@ -128,6 +128,10 @@ func ZZTruncate(nl, nf, p int) {
 	vObserve("ack-offset", ack)
 	vObserve("truncates", int64(len(rpc.truncates)))
 	vAssert("cursor-starts-at-follower-head", ack == fw.lastAppended)
+	vAssert("follower-head-tracks-its-wal", fc.lastAppendedOffset == fw.lastAppended)
+	// attaching pre-acknowledges commit+1..ackOffset on behalf of this follower: with RF 3 that is a
+	// quorum, so the commit offset may not pass what the follower really holds
+	vAssert("commit-offset-not-beyond-what-the-follower-holds", lc.quorumAckTracker.CommitOffset() <= fw.lastAppended)
 	known := false
 	if len(rpc.truncates) == 1 {
 		known = vKnown("KF-C03-truncate-by-offset-only", rpc.truncTargetTermOnFollower[0] != rpc.truncates[0].HeadEntryId.Term)
